@@ -40,6 +40,7 @@ def ou (x : Option Nat) : String := match x with | some v => toString v | none =
 def errName : Err → String
   | .slice => "slice"
   | .oob => "oob"
+  | .fuel => "fuel"
 
 def wrap {α} (r : Except Err α) (f : α → String) : String :=
   match r with
